@@ -145,6 +145,10 @@ def runTx (d : D) (o : Op) : D × String :=
     else if o.kind == "tx.generic" then (d, "=> guard-passed")
     else ({ d with w := (txStep d.w o).1 }, (txStep d.w o).2)
 
+/-- start of a block: the state is saved so that a block that does not commit leaves nothing behind -/
+def startBlock (d : D) (halting : Bool) : D :=
+  { d with snap := some (d.w, d.goat), halting := halting, failed := none }
+
 /-- a block that does not commit: the state saved at `a.blockstart` comes back -/
 def failBlock (d : D) (eng : List String) (cls : String) : D × Bool × String :=
   match d.snap with
@@ -196,7 +200,7 @@ def step (d : D) (o : Op) : D × String :=
                         beaconRoot := o.bytes "beacon" } }, "=> ok")
   | "dump.goat" =>
     (d, s!"=> goat head={toHex d.goat.head.blockHash}|{d.goat.head.blockNumber}|{toHex d.goat.head.parentHash} beacon={toHex d.goat.beaconRoot}")
-  | "a.blockstart" => ({ d with snap := some (d.w, d.goat), halting := o.str "halt" == "1", failed := none }, "=> ok")
+  | "a.blockstart" => (startBlock d (o.str "halt" == "1"), "=> ok")
   | "a.det" => (d, "=> ok")
   | "a.export" =>
     -- does the locking + relayer state survive export → import (GoatModel.Genesis)?  Compared with the real
